@@ -133,7 +133,7 @@ theorem image_ctor_shapes (sh : List ℕ) (order : String) (v : Bool) :
   constructor
   · rintro rfl; rfl
   · intro h
-    refine ⟨⟨sh, orderOfString order, v⟩, by simp [imageCtor, h], rfl, rfl, rfl, rfl, by simp [ImageObj.shapes, prod], rfl, ?_⟩
+    refine ⟨⟨sh, orderOfString order, ravelOrderOfString order, v⟩, by simp [imageCtor, h], rfl, rfl, rfl, rfl, by simp [ImageObj.shapes, prod], rfl, ?_⟩
     cases v <;> simp [ImageObj.shapes, prod]
 
 example : ∃ ob, imageCtor [2, 3, 4] "F" false = some ob ∧ ob.shapes.parDim = some 24 := by
@@ -149,8 +149,9 @@ theorem image_ctor_is_geom (a b : ℕ) (f v : Bool) :
       ob.shapes.funShape = (Geom.image a b f v).funShape ∧
       (∀ x, ob.par2fun x = (Geom.image a b f v).par2fun x) ∧
       (∀ x, (Geom.image a b f v).fun2par x = match ob.fun2par x with | some y => .ok y | none => .error "raise") := by
-  have ho : orderOfString (if f then "F" else "C") = some f := by cases f <;> decide
-  refine ⟨⟨[a, b], some f, v⟩, by simp [imageCtor, ho], rfl, ?_, ?_, ?_, ?_⟩
+  have ho : orderOfString (if f then "F" else "C") = some f := by cases f <;> decide +kernel
+  have hr : ravelOrderOfString (if f then "F" else "C") = some f := by cases f <;> decide +kernel
+  refine ⟨⟨[a, b], some f, some f, v⟩, by simp [imageCtor, ho, hr], rfl, ?_, ?_, ?_, ?_⟩
   · simp [ImageObj.shapes, Geom.parShape, prod]
   · cases v <;> simp [ImageObj.shapes, Geom.funShape, prod]
   · intro x; cases v <;> simp [ImageObj.par2fun, ImageObj.vectorToImage, Geom.par2fun]
@@ -211,8 +212,51 @@ theorem image_ctor_misuse_refused_late (sh : List ℕ) (order : String) (ob : Im
           split <;> simp
       · rw [ho] at hn; cases hn
 
-example : ∀ x, (⟨[6], some false, false⟩ : ImageObj).par2fun x = none :=
-  fun x => image_ctor_misuse_refused_late [6] "C" _ rfl (Or.inl (by simp)) x
+example : ∀ ob, imageCtor [6] "C" false = some ob → ∀ x, ob.par2fun x = none :=
+  fun ob h x => image_ctor_misuse_refused_late [6] "C" ob h (Or.inl (by simp)) x
+
+/-- **numpy's other order letters**: the order string is case-insensitive; 'A' behaves as 'C' (on the
+    C-contiguous arrays of the model); with 'K' `par2fun` raises on every input (reshape refuses it) while
+    `fun2par` ravels in C order. -/
+theorem image_ctor_other_orders (sh : List ℕ) (hsh : sh ≠ []) (x : Arr) :
+    imageCtor sh "a" false = imageCtor sh "C" false ∧ imageCtor sh "A" false = imageCtor sh "C" false ∧
+    imageCtor sh "c" false = imageCtor sh "C" false ∧ imageCtor sh "f" false = imageCtor sh "F" false ∧
+    (∀ ob, imageCtor sh "K" false = some ob → ob.par2fun x = none ∧ ob.fun2par x = some (imageRavel false x)) := by
+  have e1 : orderOfString "a" = orderOfString "C" := by decide +kernel
+  have e2 : orderOfString "A" = orderOfString "C" := by decide +kernel
+  have e3 : orderOfString "c" = orderOfString "C" := by decide +kernel
+  have e4 : orderOfString "f" = orderOfString "F" := by decide +kernel
+  have r1 : ravelOrderOfString "a" = ravelOrderOfString "C" := by decide +kernel
+  have r2 : ravelOrderOfString "A" = ravelOrderOfString "C" := by decide +kernel
+  have r3 : ravelOrderOfString "c" = ravelOrderOfString "C" := by decide +kernel
+  have r4 : ravelOrderOfString "f" = ravelOrderOfString "F" := by decide +kernel
+  have k1 : orderOfString "K" = none := by decide +kernel
+  have k2 : ravelOrderOfString "K" = some false := by decide +kernel
+  refine ⟨by simp [imageCtor, e1, r1], by simp [imageCtor, e2, r2], by simp [imageCtor, e3, r3],
+    by simp [imageCtor, e4, r4], ?_⟩
+  intro ob h
+  simp only [imageCtor, hsh, if_false, k1, k2, Option.some.injEq] at h
+  subst h
+  simp [ImageObj.par2fun, ImageObj.vectorToImage, ImageObj.fun2par]
+
+example : ∀ ob, imageCtor [2, 3] "K" false = some ob → ob.par2fun (ones 6) = none :=
+  fun ob h => ((image_ctor_other_orders [2, 3] (by simp) (ones 6)).2.2.2.2 ob h).1
+
+/-- **`variables` of a geometry whose variables were never set**: `par_dim` generated names (`v` alone for
+    one parameter), as many as `par_dim`; without a grid (`par_dim is None`) the property raises.  A bool
+    argument is an int in Python: `True`/`False` act as `1`/`0` in `_create_dimension` and in the setter. -/
+theorem default_variables_count (n : ℕ) :
+    (∃ vs, defaultVariables (some n) = some vs ∧ vs.length = n) ∧ defaultVariables none = none ∧
+    createDimension (.int 1) = some (some [0]) ∧ createDimension (.int 0) = some (some []) ∧
+    variablesOf (.int 1) = some ["v"] ∧ variablesOf (.int 0) = some [] := by
+  refine ⟨?_, rfl, by simp [createDimension, createDimCore, arangeQ, List.range, List.range.loop], by simp [createDimension, createDimCore, arangeQ], rfl, rfl⟩
+  by_cases h1 : (n : ℤ) = 1
+  · have : n = 1 := by exact_mod_cast h1
+    subst this
+    exact ⟨["v"], rfl, rfl⟩
+  · exact ⟨(List.range n).map fun i => "v" ++ toString i, by simp [defaultVariables, variablesOf, h1], by simp⟩
+
+example : ∃ vs, defaultVariables (some 4) = some vs ∧ vs.length = 4 := (default_variables_count 4).1
 
 /-! ## Discrete and the default geometries -/
 
